@@ -41,12 +41,12 @@ CHECKS.update({
    "Banks $00-$7F inside the image only. Known finding D2 (last byte of each bank unreachable, pinned by a baseline test) is relaxed narrowly while its witness still fails. Sampled histories."),
  "C13": ("exploration", "4 C13",
    "Seeded histories of Attach (overlapping, nested, re-attached, top-of-space, mis-aligned), EaRead/EaWrite at range edges and in holes, and EaDump over every alignment across devices and holes, on a fresh bus.Bus with simulated devices that record the address they receive; checked op by op against an owner table: exactly one call on the most recently attached device with the full address, holes panic without touching a device, rejected Attach changes nothing, EaDump count/content/untouched-hole positions/guard bytes and every device call made on its behalf.",
-   "24-bit addresses, non-empty ranges. Sampled histories."),
+   "24-bit addresses (empty and inverted ranges included; devices whose Read panics and memories that work as nil pointers are not modelled). Sampled histories."),
 })
 CHECKS.update({
  "C12": ("exploration", "4 C12",
    "Clock = emulated cycle counter, time-out = RunUntil's budget. Seeded programs on emulator.System are driven by RunUntil with budget and target placed relative to a measured reference pass (0, 1, first-instruction cost +-1, exact path cost +-1; target = start / n-th boundary / operand middle / wrong bank / never), observer callbacks on chosen addresses, and a simulated Logger with fault plans; the result is compared with a bare-Step twin applying the property's own definition, and a yield-count watchdog turns a non-returning RunUntil into a reported violation. Bare cpu65c816/cpualt runs with seeded STP/Reset lifecycles are monitored step by step (cycles >= 1, AllCycles delta, stop flag = STP since last Reset, OnPC before the fetch, OnWDM operands); a per-opcode sweep steps every M x X x E x DL x page-cross x branch combination once on both interpreters.",
-   "Index/slice-bounds panics inside Step (unclaimed C08 defect) end a run as discarded when the twin panics identically. Callbacks only observe. Sampled programs; the sweep covers each opcode x 48 flag combinations per visit."),
+   "Index/slice-bounds panics inside Step (unclaimed C08 defect) end a run as discarded when the twin panics identically. Callbacks observe, restart the exported cycle total, re-enter RunUntil for the address the CPU is at, or fork the CPU with InitFrom; callbacks that move the PC are outside the property. Sampled programs; the sweep covers each opcode x 48 flag combinations per visit."),
  "C14": ("exploration", "4 C14",
    "Twin worlds of one scenario: traced (System.RunUntil with a simulated Logger incl. Reserve/Commit presence and fault plans, or cpualt DisassembleCurrentPC before each Step) and untraced must end with identical registers (both width copies), flags, cycle totals and memory; a third, externally recording pass supplies what each instruction looked like just before it executed, and every trace line is parsed and compared with it using an independently written 65C816 decode table (address, exact bytes for the current widths, mnemonic, operand rendering, branch destination, width-appropriate register values, flag letters).",
    "Dialect tolerances listed in DESIGN §4 C14 / evidence assumptions. Runs where Step panics identically in both worlds are discarded (unclaimed C08). Sampled programs; all 29 addressing modes x 4 width combinations are reached in the quick tier."),
